@@ -676,20 +676,6 @@ module Z =
     | Lt -> true
     | _ -> false
 
-  (** val geb : Big_int_Z.big_int -> Big_int_Z.big_int -> bool **)
-
-  let geb x y =
-    match compare x y with
-    | Lt -> false
-    | _ -> true
-
-  (** val gtb : Big_int_Z.big_int -> Big_int_Z.big_int -> bool **)
-
-  let gtb x y =
-    match compare x y with
-    | Gt -> true
-    | _ -> false
-
   (** val eqb : Big_int_Z.big_int -> Big_int_Z.big_int -> bool **)
 
   let eqb = Big_int_Z.eq_big_int
@@ -1310,12 +1296,12 @@ let dunder_le _ self other =
 (** val dunder_gt : fixed_cls -> Big_int_Z.big_int -> operand -> bool res **)
 
 let dunder_gt _ self other =
-  bind (operand_value other) (fun other_v_1 -> Ok (Z.gtb self other_v_1))
+  bind (operand_value other) (fun other_v_1 -> Ok (Z.ltb other_v_1 self))
 
 (** val dunder_ge : fixed_cls -> Big_int_Z.big_int -> operand -> bool res **)
 
 let dunder_ge _ self other =
-  bind (operand_value other) (fun other_v_1 -> Ok (Z.geb self other_v_1))
+  bind (operand_value other) (fun other_v_1 -> Ok (Z.leb other_v_1 self))
 
 (** val min : fixed_cls -> Big_int_Z.big_int list -> Big_int_Z.big_int res **)
 
@@ -1331,10 +1317,20 @@ let dunder_str st self =
   else if Z.ltb st.f_display st.f_precision
        then let v_2 = Z.add self st.f_scaledr in
             bind (pydiv v_2 st.f_scaledd) (fun v_3 ->
-              bind (pydiv v_3 st.f_scaled) (fun q_4 ->
-                bind (pymod v_3 st.f_scaled) (fun r_5 -> Ok (Fmt2 (q_4, r_5)))))
-       else bind (pydiv self st.f_scaled) (fun q_6 ->
-              bind (pymod self st.f_scaled) (fun r_7 -> Ok (Fmt2 (q_6, r_7))))
+              if Z.ltb v_3 Big_int_Z.zero_big_int
+              then bind (pydiv (Z.opp v_3) st.f_scaled) (fun q_4 ->
+                     bind (pymod (Z.opp v_3) st.f_scaled) (fun r_5 -> Ok
+                       (FmtNeg (Fmt2 (q_4, r_5)))))
+              else bind (pydiv v_3 st.f_scaled) (fun q_6 ->
+                     bind (pymod v_3 st.f_scaled) (fun r_7 -> Ok (Fmt2 (q_6,
+                       r_7)))))
+       else if Z.ltb self Big_int_Z.zero_big_int
+            then bind (pydiv (Z.opp self) st.f_scaled) (fun q_8 ->
+                   bind (pymod (Z.opp self) st.f_scaled) (fun r_9 -> Ok
+                     (FmtNeg (Fmt2 (q_8, r_9)))))
+            else bind (pydiv self st.f_scaled) (fun q_10 ->
+                   bind (pymod self st.f_scaled) (fun r_11 -> Ok (Fmt2 (q_10,
+                     r_11))))
 
 (** val dunder_truediv :
     fixed_cls -> Big_int_Z.big_int -> operand -> Big_int_Z.big_int res **)
@@ -1465,7 +1461,7 @@ let dunder_cmp st self other =
     if Z.ltb gdiff_2 st.g_geps
     then Ok Big_int_Z.zero_big_int
     else bind (operand_value other) (fun other_v_3 ->
-           if Z.gtb self other_v_3
+           if Z.ltb other_v_3 self
            then Ok Big_int_Z.unit_big_int
            else Ok (Z.opp Big_int_Z.unit_big_int)))
 
@@ -1502,14 +1498,14 @@ let dunder_le0 st self other =
 
 let dunder_gt0 st self other =
   bind (dunder_cmp st self other) (fun c_1 -> Ok
-    (Z.gtb c_1 Big_int_Z.zero_big_int))
+    (Z.ltb Big_int_Z.zero_big_int c_1))
 
 (** val dunder_ge0 :
     guarded_cls -> Big_int_Z.big_int -> operand -> bool res **)
 
 let dunder_ge0 st self other =
   bind (dunder_cmp st self other) (fun c_1 -> Ok
-    (Z.geb c_1 Big_int_Z.zero_big_int))
+    (Z.leb Big_int_Z.zero_big_int c_1))
 
 (** val min0 :
     guarded_cls -> Big_int_Z.big_int list -> Big_int_Z.big_int res **)
@@ -1524,15 +1520,31 @@ let min0 _ = function
 
 let dunder_str0 st self =
   bind (pydiv (Z.add self st.g_scaledr) st.g_scaledd) (fun q_2 ->
-    if Z.leb st.g_display st.g_precision
-    then bind (pydiv q_2 st.g_scaled) (fun q_4 ->
-           bind (pymod q_2 st.g_scaled) (fun r_5 ->
-             let s_6 = Fmt2 (q_4, r_5) in Ok s_6))
-    else bind (pymod q_2 st.g_scaled) (fun r_7 ->
-           bind (pydiv q_2 st.g_scaled) (fun q_9 ->
-             bind (pydiv r_7 st.g_scaledg) (fun q_10 ->
-               bind (pymod r_7 st.g_scaledg) (fun r_11 ->
-                 let s_12 = Fmt3 (q_9, q_10, r_11) in Ok s_12)))))
+    let neg_4 = Z.ltb q_2 Big_int_Z.zero_big_int in
+    if neg_4
+    then let gv_5 = Z.opp q_2 in
+         if Z.leb st.g_display st.g_precision
+         then bind (pydiv gv_5 st.g_scaled) (fun q_6 ->
+                bind (pymod gv_5 st.g_scaled) (fun r_7 ->
+                  let s_8 = Fmt2 (q_6, r_7) in
+                  Ok (if neg_4 then FmtNeg s_8 else s_8)))
+         else bind (pymod gv_5 st.g_scaled) (fun r_9 ->
+                bind (pydiv gv_5 st.g_scaled) (fun q_11 ->
+                  bind (pydiv r_9 st.g_scaledg) (fun q_12 ->
+                    bind (pymod r_9 st.g_scaledg) (fun r_13 ->
+                      let s_14 = Fmt3 (q_11, q_12, r_13) in
+                      Ok (if neg_4 then FmtNeg s_14 else s_14)))))
+    else if Z.leb st.g_display st.g_precision
+         then bind (pydiv q_2 st.g_scaled) (fun q_15 ->
+                bind (pymod q_2 st.g_scaled) (fun r_16 ->
+                  let s_17 = Fmt2 (q_15, r_16) in
+                  Ok (if neg_4 then FmtNeg s_17 else s_17)))
+         else bind (pymod q_2 st.g_scaled) (fun r_18 ->
+                bind (pydiv q_2 st.g_scaled) (fun q_20 ->
+                  bind (pydiv r_18 st.g_scaledg) (fun q_21 ->
+                    bind (pymod r_18 st.g_scaledg) (fun r_22 ->
+                      let s_23 = Fmt3 (q_20, q_21, r_22) in
+                      Ok (if neg_4 then FmtNeg s_23 else s_23))))))
 
 (** val dunder_hash :
     guarded_cls -> Big_int_Z.big_int -> Big_int_Z.big_int res **)
@@ -1577,7 +1589,7 @@ let nev a a0 b =
     Big_int_Z.big_int -> Big_int_Z.big_int -> Big_int_Z.big_int **)
 
 let fixed_display p d0 =
-  if (||) (Z.ltb d0 Big_int_Z.zero_big_int) (Z.gtb d0 p) then p else d0
+  if (||) (Z.ltb d0 Big_int_Z.zero_big_int) (Z.ltb p d0) then p else d0
 
 (** val mk_fixed_cls : Big_int_Z.big_int -> Big_int_Z.big_int -> fixed_cls **)
 
@@ -1660,7 +1672,7 @@ let fixed p d =
     Big_int_Z.big_int -> guarded_cls **)
 
 let mk_guarded_cls p g d0 stale =
-  let d = if Z.gtb d0 (Z.add p g) then Z.add p g else d0 in
+  let d = if Z.ltb (Z.add p g) d0 then Z.add p g else d0 in
   let geps0 =
     Z.div
       (Z.pow (Big_int_Z.mult_int_big_int 2
@@ -1692,7 +1704,7 @@ let mk_guarded_cls p g d0 stale =
       (Big_int_Z.mult_int_big_int 2 Big_int_Z.unit_big_int)))
       (Z.sub (Z.add g p) d)) (Big_int_Z.mult_int_big_int 2
     Big_int_Z.unit_big_int)); g_scaledg =
-  (if Z.gtb d p
+  (if Z.ltb p d
    then Z.pow (Big_int_Z.mult_int_big_int 2
           ((fun x -> Big_int_Z.succ_big_int (Big_int_Z.mult_int_big_int 2 x))
           (Big_int_Z.mult_int_big_int 2 Big_int_Z.unit_big_int))) (Z.sub d p)
@@ -1832,9 +1844,9 @@ let q_le a b =
   | Gt -> false
   | _ -> true
 
-(** val rational_str : Big_int_Z.big_int -> q -> string **)
+(** val rational_fmt : Big_int_Z.big_int -> q -> fmt_args **)
 
-let rational_str dp q0 =
+let rational_fmt dp q0 =
   let q1 = qred q0 in
   let dps =
     Z.pow (Big_int_Z.mult_int_big_int 2
@@ -1855,8 +1867,14 @@ let rational_str dp q0 =
          in
          Z.div (Z.mul w.qnum dps) w.qden
   in
-  render_fmt dp Big_int_Z.zero_big_int (Fmt2 ((Z.div v dps),
-    (Z.modulo v dps)))
+  if Z.ltb v Big_int_Z.zero_big_int
+  then FmtNeg (Fmt2 ((Z.div (Z.opp v) dps), (Z.modulo (Z.opp v) dps)))
+  else Fmt2 ((Z.div v dps), (Z.modulo v dps))
+
+(** val rational_str : Big_int_Z.big_int -> q -> string **)
+
+let rational_str dp q0 =
+  render_fmt dp Big_int_Z.zero_big_int (rational_fmt dp q0)
 
 (** val rational : Big_int_Z.big_int -> arith **)
 
